@@ -35,6 +35,23 @@ pub fn base_cfg() -> Cfg {
     vol::cfg_from(&spec.name, img, c)
 }
 
+/// FAT12 volume without a free cluster whose 16-slot root directory is full
+pub fn full_cfg() -> Cfg {
+    let spec = vol::VolSpec { name: "n12-full".into(), fat: FatType::Fat12, bps: 512, spc: 1, fats: 2, root_entries: 16, clusters: Some(10), free: Some(0), tail: 0 };
+    let (mut img, _) = vol::build(&spec).expect("full volume");
+    // fill the root: sixteen short entries
+    let g = vol::geo_of(&img);
+    let off = g.root_off() as usize;
+    for i in 0..16usize {
+        let mut name = *b"FILLER00TXT";
+        name[6] = b'0' + (i / 10) as u8;
+        name[7] = b'0' + (i % 10) as u8;
+        let s = harness::builder::sfn_slot(&name, 0x20, 0, harness::builder::Times::default(), 0, 0);
+        img[off + i * 32..off + i * 32 + 32].copy_from_slice(&s);
+    }
+    vol::cfg_from(&spec.name, img, Some(vec![]))
+}
+
 #[derive(Clone, Copy, PartialEq, Eq, Debug)]
 pub enum Via {
     CreateFile,
@@ -64,6 +81,11 @@ fn image_sig(st: &harness::dev::DevState) -> Vec<(u64, [u8; 512])> {
     ov
 }
 
+fn raw_status_bytes(st: &harness::dev::DevState) -> (u8, u8) {
+    let b = st.read_vec(0, 512);
+    (b[0x25], b[0x41])
+}
+
 /// try one candidate name through one API on a fresh volume (in the root, or in subdirectory `sub`)
 pub fn try_name(cfg: &Cfg, name: &str, via: Via, in_sub: bool) -> Vec<(String, String)> {
     let mut v = Vec::new();
@@ -80,6 +102,12 @@ pub fn try_name(cfg: &Cfg, name: &str, via: Via, in_sub: bool) -> Vec<(String, S
         }
         let before = image_sig(&st.borrow());
         let free_before = fs.stats().map(|s| s.free_clusters()).ok();
+        let status_before = raw_status_bytes(&st.borrow());
+        {
+            let mut s = st.borrow_mut();
+            s.log.clear();
+            s.logging = true;
+        }
         let res: Result<(), ErrKind> = match via {
             Via::CreateFile => dir.create_file(name).map(|_| ()).map_err(sess::ek),
             Via::CreateDir => dir.create_dir(name).map(|_| ()).map_err(sess::ek),
@@ -104,7 +132,14 @@ pub fn try_name(cfg: &Cfg, name: &str, via: Via, in_sub: bool) -> Vec<(String, S
                 if undoc && !matches!(k, ErrKind::UnsupportedFileNameCharacter | ErrKind::InvalidFileNameLength) {
                     return Err((format!("C15/wrong-error-kind/{vname}/{}", k.name()), format!("{ctx} -> {k:?}")));
                 }
-                // no side effects
+                // no side effects: nothing may even be written (a rejected name is refused before anything is touched;
+                // in particular the volume is not marked dirty)
+                if let Some(w) = st.borrow().log.iter().find(|r| r.kind == harness::dev::Kind::Write) {
+                    return Err((format!("C15/rejected-name-causes-writes/{vname}"), format!("{ctx}: write of {} bytes at offset {}", w.len, w.off)));
+                }
+                if raw_status_bytes(&st.borrow()) != status_before {
+                    return Err((format!("C15/rejected-name-has-side-effects/{vname}"), format!("{ctx}: status byte changed")));
+                }
                 let after = image_sig(&st.borrow());
                 if after != before {
                     return Err((format!("C15/rejected-name-has-side-effects/{vname}"), format!("{ctx}: image changed ({} pages)", after.len())));
@@ -254,8 +289,8 @@ pub fn candidates(th: bool) -> Vec<(String, bool)> {
     for ch in &scalars {
         c.push((ch.to_string(), false));
         c.push((format!("a{ch}"), false));
-        if th || (*ch as u32) < 0x100 {
-            c.push((format!("{ch}b"), false));
+        c.push((format!("{ch}b"), false));
+        if th || (*ch as u32) < 0x100 || (*ch as u32) >= 0xFF00 || (0xD7F0..=0xE010).contains(&(*ch as u32)) {
             c.push((format!("a{ch}b"), false));
         }
     }
@@ -293,6 +328,14 @@ pub fn candidates(th: bool) -> Vec<(String, bool)> {
                 break;
             }
         }
+    }
+    // (4b) shapes from real directories: reserved device names, 8.3 boundary shapes, several dots, alias look-alikes
+    for n in [
+        "con", "CON", "prn", "aux", "nul", "NUL", "com1", "lpt1", "con.txt", "nul.tar.gz", "a.b.c.d", ".hidden", "..hidden", "name.toolongext", "12345678.123", "123456789.1", "1234567.1234",
+        "UPPER.TXT", "lower.txt", "Mixed.Case", "with space.txt", " leading", "~1", "a~1.txt", "ABCDEF~1.TXT", "abcdef~1.txt", "x+y,z;=[].txt", "readme", "README.", "archive.tar.gz", "a{b}c.d@e",
+    ] {
+        c.push((n.to_string(), false));
+        c.push((n.to_string(), true));
     }
     // (5) case pairs: every BMP scalar with a case mapping, after a plain prefix
     for cp in 0u32..=0xFFFF {
@@ -349,6 +392,52 @@ pub fn run(tier: &str) -> i32 {
         .collect();
     let mut all: BTreeMap<String, (String, u64)> = BTreeMap::new();
     let mut classes: BTreeMap<String, u64> = BTreeMap::new();
+    // invalid names on a completely full volume with a full root directory: the name error must win over
+    // NotEnoughSpace, and still nothing may be written
+    let mut full_evals = 0u64;
+    {
+        let full = full_cfg();
+        let bad: Vec<String> = cands.iter().map(|(n, _)| n).filter(|n| n.chars().count() <= 2 && !model::name_errors(n).0.is_empty()).cloned().chain(["a".repeat(256), String::new()]).collect();
+        let res: Vec<Vec<(String, String)>> = bad
+            .par_iter()
+            .map(|n| {
+                let mut v = Vec::new();
+                for via in [Via::CreateFile, Via::CreateDir] {
+                    for (sig, msg) in try_name(&full, n, via, false) {
+                        v.push((sig.replace("C15/", "C15/full-volume/"), msg));
+                    }
+                }
+                v
+            })
+            .collect();
+        full_evals += 2 * bad.len() as u64;
+        for (sig, msg) in res.into_iter().flatten() {
+            all.entry(sig).or_insert((msg, 0)).1 += 1;
+        }
+    }
+    // lookups: every (stored name, looked-up name) pair over names with case partners, multi-character
+    // expansions, punctuation partners ... against the fold the build documents (with and without `unicode`)
+    let mut matrix_pairs = 0u64;
+    {
+        let dir = crate::c17::tmp_dir();
+        let ip = dir.join("c15-matrix.img");
+        std::fs::write(&ip, crate::c19::image(FatType::Fat12)).expect("write image");
+        for (v, build) in [("a", "unicode"), ("c", "no-unicode")] {
+            match crate::c17::run_driver(v, &["c19m", ip.to_str().unwrap()]) {
+                Ok(o) => {
+                    matrix_pairs += o.evals;
+                    for (sig, n, msg) in o.viols {
+                        all.entry(format!("{}/{build}", sig.replace("C19/", "C15/"))).or_insert((msg, 0)).1 += n;
+                    }
+                }
+                Err(e) => {
+                    eprintln!("MACHINERY ERROR: {e}");
+                    return 2;
+                }
+            }
+        }
+        let _ = std::fs::remove_file(&ip);
+    }
     for (v, c) in res {
         for (sig, msg) in v {
             all.entry(sig).or_insert((msg, 0)).1 += 1;
@@ -367,7 +456,7 @@ pub fn run(tier: &str) -> i32 {
     rep.coverage = json!({
         "evaluations": evals.load(Ordering::Relaxed),
         "distinct_nontrivial": classes.len(),
-        "rule": "candidate names: every BMP scalar (except '/', the path separator) and 66 scalars of each astral plane as c in the templates c, ac (thorough: also cb, acb; quick: cb/acb for c < U+0100); every byte length 0..=300 built from 1/2/3/4-byte characters; all strings over {'.',' ','a'} of length 1..=4 in the root and in a subdirectory; x+c for every BMP scalar with a case mapping; each through create_file, create_dir and rename on a fresh volume; distinct_nontrivial = distinct (API, name class, verdict) triples",
+        "rule": "candidate names: every BMP scalar (except '/', the path separator) and 66 scalars of each astral plane as c in the templates c, ac, cb (thorough: also acb for every c; quick: acb for c < U+0100, the surrogate/private-use boundary and c >= U+FF00); about thirty shapes from real directories (reserved device names, 8.3 boundaries, several dots, alias look-alikes); every byte length 0..=300 built from 1/2/3/4-byte characters; all strings over {'.',' ','a'} of length 1..=4 in the root and in a subdirectory; x+c for every BMP scalar with a case mapping; each through create_file, create_dir and rename on a fresh volume; distinct_nontrivial = distinct (API, name class, verdict) triples",
         "samples": [
             {"name": "", "via": "create_file"},
             {"name": "é", "via": "create_dir"},
@@ -377,6 +466,8 @@ pub fn run(tier: &str) -> i32 {
         "exhaustive": ncap == 0,
         "candidates": cands.len(),
         "candidates_skipped_by_deadline": ncap,
+        "invalid_names_tried_on_a_full_volume": full_evals,
+        "stored_vs_looked_up_name_pairs": matrix_pairs,
         "classes": classes,
         "technique": "bounded-exhaustive enumeration of candidate names on the real crate; acceptance judged by an independent statement of the documented character set, losslessness and lookup by listing / open through the public API",
     });
